@@ -85,22 +85,31 @@ func samplePlan(r *eng.Rand, pi int, logCols, maxLevel, maxLevelP int, bigN bool
 	maxLT := 0
 	for i := 0; i < nlt; i++ {
 		var lt planLT
-		lt.ratio = eng.Pick(r, -1, -1, 0, 0, 1, 1, 1, 2, 2, 3)
+		lt.ratio = eng.Pick(r, -1, -1, 0, 0, 1, 1, 1, 2, 2, 3, 4)
 		lt.kind = diagKinds[r.N(len(diagKinds))]
 		if n == 2 && lt.kind == "edge" {
 			lt.kind = "single"
 		}
-		maxD := 512
+		maxD := 1024
 		if lt.ratio < 0 {
 			maxD = 96
 			if bigN {
 				maxD = 40
 			}
 		}
+		if (pi == 1 || pi == 2) && i == 0 {
+			// one long-inner-loop matrix per parameter set (lazy-reduction margins of the BSGS loops)
+			lt.kind = eng.Pick(r, "block", "dense")
+			lt.ratio = eng.Pick(r, 3, 4, 5)
+		}
+		if lt.kind == "block" && lt.ratio < 1 {
+			lt.ratio = eng.Pick(r, 1, 2, 3, 4)
+			maxD = 1024
+		}
 		if lt.kind == "dense" && n > maxD {
 			if lt.ratio < 0 {
 				lt.ratio = eng.Pick(r, 0, 1, 2)
-				maxD = 512
+				maxD = 1024
 			}
 			if n > maxD {
 				lt.kind = "random"
@@ -109,7 +118,7 @@ func samplePlan(r *eng.Rand, pi int, logCols, maxLevel, maxLevelP int, bigN bool
 		lt.norm = diagSet(r, n, lt.kind, maxD)
 		lt.lib = signed(r, lt.norm, n, lt.kind)
 		lt.val = eng.Pick(r, "uniform", "uniform", "ones", "halfzero", "extreme", "rowdiff")
-		if allowPerm && r.N(7) == 0 {
+		if allowPerm && r.N(7) == 0 && !((pi == 1 || pi == 2) && i == 0) {
 			lt.perm = true
 			lt.kind = "perm"
 			lt.val = "perm"
